@@ -81,8 +81,14 @@ def cases(ctx):
                     for _ in range(abs(k)):
                         v = np.nextafter(v, np.inf if k > 0 else -np.inf)
                     y[j] = v
+            if kind != "intdtype" and rng.random() < 0.3:
+                # the same curve at another amplitude / around an offset: consecutive samples closer than any fixed "closeness" tolerance
+                amp, off = float(rng.choice([1e-9, 1e-8, 1e-6, 1e-3, 1e4])), float(rng.choice([0.0, 0.0, 1.0, 1000.0]))
+                y = off + amp * np.asarray(y, dtype=float)
+                kind = kind + "*amp"
             yf = np.asarray(y, dtype=float)
-            ts = np.concatenate([rng.choice(yf, 2), rng.uniform(yf.min() - 0.5, yf.max() + 0.5, 3), [yf.min() - 1, yf.max() + 1, yf.min(), yf.max(), 1.0]])
+            amp_ = float(np.ptp(yf)) or 1.0
+            ts = np.concatenate([rng.choice(yf, 2), rng.uniform(yf.min() - 0.5 * amp_, yf.max() + 0.5 * amp_, 3), [yf.min() - amp_, yf.max() + amp_, yf.min(), yf.max(), 1.0]]) if kind.endswith("*amp") else np.concatenate([rng.choice(yf, 2), rng.uniform(yf.min() - 0.5, yf.max() + 0.5, 3), [yf.min() - 1, yf.max() + 1, yf.min(), yf.max(), 1.0]])
             ts = ts[rng.permutation(len(ts))]
             yield {"mode": "curve", "kind": kind, "x": x, "y": y, "t": ts, "form": str(rng.choice(["array", "array", "list", "scalar"]))}
         else:
